@@ -244,11 +244,11 @@ pub trait Formatter {
             }
             fn visit_u64(self, n: u64) -> io::Result<()> {
                 let mut buffer = itoa::Buffer::new();
-                self.writer.write(buffer.format(n).as_bytes()).map(drop)
+                self.writer.write_all(buffer.format(n).as_bytes())
             }
             fn visit_i64(self, n: i64) -> io::Result<()> {
                 let mut buffer = itoa::Buffer::new();
-                self.writer.write(buffer.format(n).as_bytes()).map(drop)
+                self.writer.write_all(buffer.format(n).as_bytes())
             }
             fn visit_f64(self, n: f64) -> io::Result<()> {
                 let mut buffer = ryu::Buffer::new();
@@ -337,7 +337,7 @@ pub trait Formatter {
     {
         write_scheme_vector(self, writer, VectorType::Byte, bytes, |writer, &octet| {
             let mut buffer = itoa::Buffer::new();
-            writer.write(buffer.format(octet).as_bytes()).map(drop)
+            writer.write_all(buffer.format(octet).as_bytes())
         })
     }
 
